@@ -870,12 +870,17 @@ class mn_x86(cls_mn):
         self.opmode = pre_dis_info['opmode']
         self.admode = pre_dis_info['admode']
 
-        if hasattr(self, 'no_xmm_pref') and\
-                pre_dis_info['prefix'] and\
-                pre_dis_info['prefix'][-1] in b'\x66\xf2\xf3':
+        # The prefix which selects the opcode is the last F2/F3 if there is
+        # one, else 66, wherever it stands among the legacy prefixes
+        mandatory = b""
+        for value in bytearray(pre_dis_info['prefix']):
+            if value in (0xf2, 0xf3):
+                mandatory = utils.int_to_byte(value)
+            elif value == 0x66 and not mandatory:
+                mandatory = b"\x66"
+        if hasattr(self, 'no_xmm_pref') and mandatory:
             return False
-        if (hasattr(self, "prefixed") and
-            not pre_dis_info['prefix'].endswith(self.prefixed.default)):
+        if hasattr(self, "prefixed") and mandatory != self.prefixed.default:
             return False
         if (self.rex_w.value is not None and
             self.rex_w.value != pre_dis_info['rex_w']):
@@ -928,12 +933,18 @@ class mn_x86(cls_mn):
 
         if self.g1.value & 1:
             v = b"\xf0" + v
+        # F2/F3 in front of an opcode selected by another mandatory prefix (or
+        # by none) would select a different opcode
         if self.g1.value & 2:
             if hasattr(self, 'no_xmm_pref'):
+                return None
+            if hasattr(self, 'prefixed') and self.prefixed.default != b"\xf2":
                 return None
             v = b"\xf2" + v
         if self.g1.value & 12:
             if hasattr(self, 'no_xmm_pref'):
+                return None
+            if hasattr(self, 'prefixed') and self.prefixed.default != b"\xf3":
                 return None
             v = b"\xf3" + v
         if self.g2.value:
